@@ -750,7 +750,8 @@ def judge_fn(case, rec: Recorder | None = None) -> list[Disc]:
                 return bool(rr and any(k == kc for k, _, _ in rr[0]))
             mast, mflags, ms = _minimise_fn(fails, ast, flags, ver, s)
             feats = G.features(mast)
-            pcls = 'flag-q' if 'q' in mflags else 'capturing-group' if 'grp' in feats else 'any-pattern'
+            pcls = ('flag-q' if 'q' in mflags else 'nested-group-in-repeated-group' if _nested_in_repeated(mast)
+                    else 'capturing-group' if 'grp' in feats else 'any-pattern')
             b = f'C12/fn/{kind}/{_subj_sig(ms)}/{pcls}'
             # input classes of two recorded root causes (flags are minimised, so both are necessary)
             if 'q' in mflags and 'x' in mflags:
@@ -762,6 +763,22 @@ def judge_fn(case, rec: Recorder | None = None) -> list[Disc]:
                 discs.append(Disc(b, exp, obs, f'pattern={text!r} flags={flags!r} subject={s!r} minimal subject {ms!r} '
                                   f'flags={mflags!r}'))
     return discs
+
+
+def _nested_in_repeated(n, in_rep_grp=False, under_rep=False):
+    """a capturing group inside a capturing group that is itself quantified (input class of a recorded defect)"""
+    t = n[0]
+    if t == 'grp':
+        if in_rep_grp:
+            return True
+        return _nested_in_repeated(n[1], under_rep, False)
+    if t == 'rep':
+        return _nested_in_repeated(n[1], in_rep_grp, True)
+    if t == 'ncg':
+        return _nested_in_repeated(n[1], in_rep_grp, under_rep)
+    if t in ('seq', 'alt'):
+        return any(_nested_in_repeated(x, in_rep_grp, under_rep) for x in n[1])
+    return False
 
 
 _FN_RAW_SEEN: dict = {}
@@ -814,7 +831,7 @@ def _minimise_fn(fails, ast, flags, ver, s):
 
 def _subj_sig(s):
     """coarse class of the minimal subject for function-level buckets (one class, by priority)"""
-    if any(c in '<&' for c in s):
+    if any(c in '<&' for c in s) or ']]>' in s:
         return 's:xml-special'
     if '\r' in s:
         return 's:cr'
@@ -829,7 +846,7 @@ _FN_FLAGS = ['', '', '', 's', 'm', 'i', 'x', 'sm', 'ix', 'q', 'qi', 'qx', 'smix'
 @st.composite
 def _fn_strategy(draw):
     case = draw(G.pattern_case(True, nsubj=5, xml_only=True, flag_sets=_FN_FLAGS, max_atoms=7,
-                               extra_chars=['<', '&', '\\', '$', 'a', ' ']))
+                               extra_chars=['<', '&', '\\', '$', 'a', ' '], light=True))
     case['short'] = draw(st.booleans())
     return case
 
@@ -862,8 +879,8 @@ def selftest():
 
 def jobs(tier, seed):
     q = tier == 'quick'
-    plan = {'xsd': (3, 2000 if q else 30000), 'xpath': (4, 2000 if q else 30000), 'cls': (3, 1800 if q else 30000),
-            'invalid': (2, 1500 if q else 30000), 'fn': (4, 600 if q else 10000)}
+    plan = {'xsd': (3, 2000 if q else 20000), 'xpath': (4, 2000 if q else 20000), 'cls': (3, 1800 if q else 20000),
+            'invalid': (2, 4000 if q else 50000), 'fn': (4, 1500 if q else 16000)}
     out = []
     only = os.environ.get('VERIF_C12_CHECKS')       # development aid (sensitivity runs): restrict the sub-checks
     if only:
